@@ -79,11 +79,33 @@ def timing_cell(P, A):
     else:
         order = list(range(N))
     ro_start = STAMP_VALUES[0] if ed == 'present' else None
+    variants, started, ended = list(variants), list(started), list(ended)
+    sig = check_timing(ro, order, variants, sd, tt, mt_, started, ended, ro_start, N)
+    r = P.get('resend')
+    if sig is None and r is not None:
+        # history: the accessors have been read; now the r-th story is re-sent with a new duration
+        # (same ID, same position) and everything must be consistent again
+        nd = A['nd']
+        o = B.merge(ro, M.story_send(ids[order[r]], body=[T('p', 'again')], pre=[B.timing_block(dur=num(nd))]))
+        if o.raised or o.warns:
+            B.note(sig='resend-failed', observed=B.conc(o.exc))
+            return False
+        i = order[r]
+        variants[i], sd[i], started[i], ended[i] = 'SD', nd, None, None
+        sig = check_timing(ro, order, variants, sd, tt, mt_, started, ended, ro_start, N)
+        if sig is not None:
+            sig = 'after-resend-' + sig
+    if B.Ctx.replay:
+        B.note(sig=sig)
+    return sig is None
+
+
+def check_timing(ro, order, variants, sd, tt, mt_, started, ended, ro_start, N):
     out = B.call(lambda: observe_timing(ro))
     B.hit()
     if out.raised:
-        B.note(sig='raised-' + type(out.exc).__name__, observed=B.conc(out.exc), expected='no exception')
-        return False
+        B.note(observed=B.conc(out.exc), expected='no exception')
+        return 'raised-' + type(out.exc).__name__
     got = out.result
     durs = [spec_duration(variants[i], sd[i], tt[i], mt_[i]) for i in order]
     all_have = all(d is not None for d in durs)
@@ -142,8 +164,8 @@ def timing_cell(P, A):
             elif N and not same(got['end'], exp_st[-1][3]):
                 sig = 'ro-end'
     if B.Ctx.replay:
-        B.note(sig=sig, observed=repr(got), expected=repr(exp_st))
-    return sig is None
+        B.note(observed=repr(got), expected=repr(exp_st))
+    return sig
 
 
 def observe_timing(ro):
